@@ -252,6 +252,10 @@ func main() {
 		{{U(2, 3)}, {G(2), G(3)}},
 		{{UI(4, 5)}, {D(4)}, {DS(9)}},
 		{{I(6), I(8)}, {D(0), A(1)}},
+		{{U(2, 3)}, {D(2)}},
+		{{U(2, 3)}, {U(2, 5)}},
+		{{UI(2, 3)}, {D(2)}, {G(3)}},
+		{{U(2, 4)}, {I(2)}, {D(4)}},
 	}
 	var scs []*mc.Scenario
 	for _, p := range progs {
